@@ -37,7 +37,7 @@ package parser
 //@   requires inv(p) && vpos(p) + n <= 9223372036854775807
 //@   panics_if n < 0
 //@   ensures err == nil ==> inv(p) && vpos(p) == old(vpos(p)) + n
-//@   ensures (err != nil) == (faults(p.r) > old(faults(p.r)))
+//@   ensures (err != nil) == (faults(p.r) > old(faults(p.r))) && faults(p.r) >= old(faults(p.r))
 //@   ensures p.r == old(p.r)
 //@   modifies p.from, p.pos, p.used, rpos(p.r), faults(p.r)
 
